@@ -48,9 +48,15 @@ def main():
                 continue
             res = {}
             for prop in props:
-                env = dict(os.environ, VERIF_REPO=wt, VERIF_CACHE="/var/tmp/cache-seed", LKDIR="/var/tmp/lk-seed", VERIF_EVID="/var/tmp/evid-seed")
+                # one build/cache directory per property, serialised by a lock: concurrent runs for
+                # different mutated trees must not share generated files or evict each other's library
+                env = dict(os.environ, VERIF_REPO=wt, VERIF_CACHE="/var/tmp/cache-seed-" + prop,
+                           LKDIR="/var/tmp/lk-seed-" + prop, VERIF_EVID="/var/tmp/evid-seed")
                 t0 = time.time()
-                r = sh([sys.executable, os.path.join(VERIF, "tools", "check.py"), prop, "--tier", a.tier], env=env, cwd=VERIF)
+                import fcntl
+                with open("/var/tmp/seed-%s.lock" % prop, "w") as lk:
+                    fcntl.flock(lk, fcntl.LOCK_EX)
+                    r = sh([sys.executable, os.path.join(VERIF, "tools", "check.py"), prop, "--tier", a.tier], env=env, cwd=VERIF)
                 viol = re.findall(r"^VIOLATION .*$", r.stdout, re.M)
                 for v in viol:
                     m = re.search(r"replay=(\S+)", v)
